@@ -22,6 +22,7 @@ type Prog struct {
 	Run        func() string
 	Want       []string
 	NativeSkip bool
+	Bound      int // preemption bound for the exploration (0 = effectively unbounded: 64)
 }
 
 func join(s []string) string { return strings.Join(s, ",") }
@@ -336,6 +337,14 @@ var Progs = []Prog{
 		go func() { b = "b"; wg.Done() }()
 		wg.Wait()
 		return a + b
+	}},
+	{Name: "spin-wait-on-flag", Bound: 2, Want: []string{"1"}, Run: func() string {
+		// a poll loop: terminates only if the scheduler lets the other goroutine run (fairness rule of the engine)
+		var flag, v int32
+		go func() { atomic.StoreInt32(&v, 1); atomic.StoreInt32(&flag, 1) }()
+		for atomic.LoadInt32(&flag) == 0 {
+		}
+		return fmt.Sprint(atomic.LoadInt32(&v))
 	}},
 	// --- outcomes only the explorer can show
 	{Name: "deadlock-two-mutexes", NativeSkip: true, Want: []string{"ok", "DEADLOCK"}, Run: func() string {
